@@ -3,6 +3,7 @@ package props
 import (
 	"fmt"
 	"math/big"
+	"sort"
 	"testing"
 
 	"verif/eng"
@@ -140,3 +141,5 @@ func fmtRes(r eng.Result) string {
 func rec_thorough() bool          { return rec.Thorough() }
 func mine(i int) bool             { return rec.Mine(i) }
 func setRapid(name string, n int) { rec.SetRapid(name, n) }
+
+func sortStrings(s []string) { sort.Strings(s) }
